@@ -1662,12 +1662,17 @@ impl Algorithm {
             Some(label) if label.is_root() => {}
             _ => return None,
         }
-        match first.as_slice() {
-            b"hmac-sha1" => Some(Algorithm::Sha1),
-            b"hmac-sha256" => Some(Algorithm::Sha256),
-            b"hmac-sha384" => Some(Algorithm::Sha384),
-            b"hmac-sha512" => Some(Algorithm::Sha512),
-            _ => None,
+        let first = first.as_slice();
+        if first.eq_ignore_ascii_case(b"hmac-sha1") {
+            Some(Algorithm::Sha1)
+        } else if first.eq_ignore_ascii_case(b"hmac-sha256") {
+            Some(Algorithm::Sha256)
+        } else if first.eq_ignore_ascii_case(b"hmac-sha384") {
+            Some(Algorithm::Sha384)
+        } else if first.eq_ignore_ascii_case(b"hmac-sha512") {
+            Some(Algorithm::Sha512)
+        } else {
+            None
         }
     }
 
